@@ -159,6 +159,10 @@ type c18Case struct {
 const tldLint = "e_dnsname_not_valid_tld"
 
 func judgeC18(rec *stats.Rec, c c18Case) (string, string) {
+	return apiGuard(func() (string, string) { return judgeC18Inner(rec, c) })
+}
+
+func judgeC18Inner(rec *stats.Rec, c c18Case) (string, string) {
 	switch c.What {
 	case "func":
 		if !isIA5(c.Domain) {
